@@ -221,7 +221,12 @@ def _dfs_unit(item):
   module, name, params, bounds, prefix, limits = item
   ex = Explorer(_mk(module, name, params), pre_bound=bounds[0],
                 dev_bound=bounds[1], det_checks=1, **limits)
-  st = ex.dfs(prefix)
+  # `prefix` is one prefix or a list of open prefixes of the same configuration;
+  # a list shares one happens-before cache (far fewer duplicate subtrees than
+  # one cache per prefix)
+  prefixes = prefix if prefix and isinstance(prefix[0], list) else [prefix]
+  for pre in prefixes:
+    st = ex.dfs(pre)
   st.count('execs:' + name, ex.execs)
   if ex.cache is not None:
     st.count('hb_pruned_nodes', ex.pruned)
@@ -254,4 +259,17 @@ def explore_all(ctx, module, configs, *, pre_bound, dev_bound=0, split=0,
       for st in pool.imap_unordered(_seed_unit, items):
         subtrees += st.aux
         ctx.merge(st)
-  ctx.pmap(_dfs_unit, ctx.shuffled(subtrees))
+  # group the open prefixes of each configuration into a few work units
+  groups = {}
+  for it in subtrees:
+    groups.setdefault(repr(it[:4]), []).append(it)
+  per_cfg = max(2 if len(groups) < 64 else 1,
+                (3 * NCPU) // max(1, len(groups)))
+  units = []
+  for its in groups.values():
+    for k in range(per_cfg):
+      part = its[k::per_cfg]
+      if part:
+        m, n, p, b, _, l = part[0]
+        units.append((m, n, p, b, [x[4] for x in part], l))
+  ctx.pmap(_dfs_unit, ctx.shuffled(units))
